@@ -1628,4 +1628,262 @@ theorem javadocParse_spec (isWs : Char → Bool) (src : List Char) (inner : List
   · simp only [javadocParse, ha, bind, Except.bind, getContent_eq a src h1 h2, ht2, javadocMark_eq]
   · exact (markInlineTags_remarked _ _ _ _ ht2).trans (jdScan_remarked t2)
 
+/-! ## `Unit::parse` and code fences: the exact output -/
+
+/-- the value of the model's own fence-line test `lineIsCodeFence` (which never fails:
+`lineIsCodeFence_eq`) — the `isF` of `unitLoop` -/
+def isFenceLine (isWs : Char → Bool) (line : List Char) : Bool :=
+  match lineIsCodeFence isWs line with
+  | .ok b => b
+  | .error _ => false
+
+theorem lineIsCodeFence_eq (isWs : Char → Bool) (line : List Char) :
+    lineIsCodeFence isWs line = .ok (isFenceLine isWs line) := by
+  obtain ⟨b, hb⟩ := lineIsCodeFence_ok isWs line
+  simp [isFenceLine, hb]
+
+/-- the value of `without_initiators` on a line (it never fails: `withoutInitiators_eq`) -/
+def leaderSpan (isWs : Char → Bool) (line : List Char) : Span :=
+  match withoutInitiators isWs line with
+  | .ok a => a
+  | .error _ => ⟨0, 0⟩
+
+theorem withoutInitiators_eq (isWs : Char → Bool) (line : List Char) :
+    withoutInitiators isWs line = .ok (leaderSpan isWs line) ∧
+      (leaderSpan isWs line).start ≤ (leaderSpan isWs line).stop ∧
+      (leaderSpan isWs line).stop ≤ line.length := by
+  obtain ⟨a, ha, h1, h2⟩ := withoutInitiators_ok isWs line
+  simp [leaderSpan, ha, h1, h2]
+
+/-- the fence test, spelled out: the stripped line begins with three backticks -/
+theorem isFenceLine_eq (isWs : Char → Bool) (line : List Char) :
+    isFenceLine isWs line = ((slice line (leaderSpan isWs line)).take 3 == ['`', '`', '`']) := by
+  obtain ⟨ha, h1, h2⟩ := withoutInitiators_eq isWs line
+  simp only [isFenceLine, lineIsCodeFence, ha, bind, Except.bind, getContent_eq _ line h1 h2, pure, Except.pure]
+
+/-- what `unit.rs:parse_line` returns for a line -/
+def parsedLine (isWs : Char → Bool) (inner : List Char → List Tok) (line : List Char) : List Tok :=
+  if (leaderSpan isWs line).isEmpty then []
+  else (inner (slice line (leaderSpan isWs line))).map (·.shift (leaderSpan isWs line).start)
+
+theorem parseLine_eq (isWs : Char → Bool) (inner : List Char → List Tok) (line : List Char) :
+    parseLine isWs inner line = .ok (parsedLine isWs inner line) := by
+  obtain ⟨ha, h1, h2⟩ := withoutInitiators_eq isWs line
+  simp only [parseLine, parsedLine, ha, bind, Except.bind]
+  by_cases he : (leaderSpan isWs line).isEmpty = true
+  · rw [if_pos he, if_pos he]; rfl
+  · rw [if_neg he, if_neg he, getContent_eq _ line h1 h2]; rfl
+
+/-- everything `Unit::parse` appends for one line that is NOT skipped, the line starting at offset
+`off`: the inner parser's tokens on the stripped line, then the line-break token, all pushed by `off` -/
+def unitLineToks (isWs : Char → Bool) (total : Nat) (inner : List Char → List Tok) (off : Nat)
+    (line : List Char) : List Tok :=
+  (parsedLine isWs inner line ++ lineBreakTok total off line).map (·.shift off)
+
+/-- `in_code_fence` AFTER the toggle, for every line in turn (`fence` = the flag before the first
+line); the toggle test is the model's own `lineIsCodeFence` -/
+def fenceStates (isWs : Char → Bool) : Bool → List (List Char) → List Bool
+  | _, [] => []
+  | fence, line :: rest =>
+    (if isFenceLine isWs line then !fence else fence) ::
+      fenceStates isWs (if isFenceLine isWs line then !fence else fence) rest
+
+/-- concatenation of `unitLineToks` over the lines whose state is `false`; nothing for the others -/
+def unitOut (isWs : Char → Bool) (total : Nat) (inner : List Char → List Tok) :
+    Nat → List (List Char) → List Bool → List Tok
+  | off, line :: rest, st :: sts =>
+    (if st then [] else unitLineToks isWs total inner off line) ++
+      unitOut isWs total inner (off + line.length + 1) rest sts
+  | _, _, _ => []
+
+theorem fenceStates_length (isWs : Char → Bool) : ∀ (fence : Bool) (lines : List (List Char)),
+    (fenceStates isWs fence lines).length = lines.length
+  | _, [] => rfl
+  | fence, l :: ls => by simp [fenceStates, fenceStates_length isWs _ ls]
+
+/-- **exact output of the `Unit::parse` loop** -/
+theorem unitLoop_eq (isWs : Char → Bool) (total : Nat) (inner : List Char → List Tok) :
+    ∀ (lines : List (List Char)) (trav : Nat) (fence : Bool),
+      unitLoop isWs total inner trav fence lines =
+        .ok (unitOut isWs total inner trav lines (fenceStates isWs fence lines)) := by
+  intro lines
+  induction lines with
+  | nil => intro _ _; rfl
+  | cons line rest ih =>
+    intro trav fence
+    simp only [unitLoop, lineIsCodeFence_eq, bind, Except.bind, fenceStates, unitOut, ih, parseLine_eq,
+      pure, Except.pure]
+    by_cases h : (if isFenceLine isWs line = true then !fence else fence) = true
+    · rw [if_pos h, if_pos h]; rfl
+    · rw [if_neg h, if_neg h]; rfl
+
+/-- the state after line `j`: the initial flag, flipped once per fence line among lines `0..=j` -/
+theorem fenceStates_getElem? (isWs : Char → Bool) : ∀ (lines : List (List Char)) (fence : Bool) (j : Nat),
+    j < lines.length →
+    (fenceStates isWs fence lines)[j]? =
+      some (fence != (((lines.take (j + 1)).countP (isFenceLine isWs)) % 2 == 1))
+  | [], _, _, h => by simp at h
+  | l :: ls, fence, 0, _ => by
+    cases hf : isFenceLine isWs l <;> cases fence <;> simp [fenceStates, hf]
+  | l :: ls, fence, j + 1, h => by
+    have := fenceStates_getElem? isWs ls (if isFenceLine isWs l then !fence else fence) j (by simpa using h)
+    simp only [fenceStates, List.getElem?_cons_succ, this, List.take_succ_cons, List.countP_cons]
+    cases hf : isFenceLine isWs l <;> cases fence <;> simp
+    all_goals
+      generalize List.countP _ _ = n
+      rcases Nat.mod_two_eq_zero_or_one n with h0 | h0
+      · have h1 : (n + 1) % 2 = 1 := by omega
+        simp [h0, h1]
+      · have h1 : (n + 1) % 2 = 0 := by omega
+        simp [h0, h1]
+
+theorem mem_unitOut (isWs : Char → Bool) (total : Nat) (inner : List Char → List Tok) (tok : Tok) :
+    ∀ (lines : List (List Char)) (sts : List Bool) (base : Nat),
+      tok ∈ unitOut isWs total inner base lines sts ↔
+        ∃ j line, lines[j]? = some line ∧ sts[j]? = some false ∧
+          tok ∈ unitLineToks isWs total inner (base + lineStart lines j) line
+  | [], _, _ => by simp [unitOut]
+  | _ :: _, [], _ => by simp [unitOut]
+  | l :: ls, st :: sts, base => by
+    simp only [unitOut, List.mem_append, mem_unitOut isWs total inner tok ls sts]
+    constructor
+    · rintro (h | ⟨j, line, h1, h2, h3⟩)
+      · cases st
+        · exact ⟨0, l, by simp, by simp, by simpa [lineStart_zero] using h⟩
+        · simp at h
+      · refine ⟨j + 1, line, by simpa using h1, by simpa using h2, ?_⟩
+        rw [lineStart_succ]
+        have : base + (l.length + 1 + lineStart ls j) = base + l.length + 1 + lineStart ls j := by omega
+        rw [this]; exact h3
+    · rintro ⟨j, line, h1, h2, h3⟩
+      cases j with
+      | zero =>
+        simp at h1 h2; subst h1; subst h2
+        left; simpa [lineStart_zero] using h3
+      | succ j =>
+        right
+        refine ⟨j, line, by simpa using h1, by simpa using h2, ?_⟩
+        rw [lineStart_succ] at h3
+        have : base + (l.length + 1 + lineStart ls j) = base + l.length + 1 + lineStart ls j := by omega
+        rw [this] at h3; exact h3
+
+/-- membership in one line's contribution, spelled out -/
+theorem mem_unitLineToks (isWs : Char → Bool) (total : Nat) (inner : List Char → List Tok) (off : Nat)
+    (line : List Char) (tok : Tok) :
+    tok ∈ unitLineToks isWs total inner off line ↔
+      (off + line.length < total ∧
+        tok = ⟨⟨off + line.length, off + line.length + 1⟩, .newline 1⟩) ∨
+      ((leaderSpan isWs line).isEmpty = false ∧ ∃ t ∈ inner (slice line (leaderSpan isWs line)),
+        tok = t.shift (off + (leaderSpan isWs line).start)) := by
+  simp only [unitLineToks, List.mem_map, List.mem_append]
+  constructor
+  · rintro ⟨x, hx | hx, rfl⟩
+    · right
+      unfold parsedLine at hx
+      split at hx
+      · cases hx
+      · next he =>
+        obtain ⟨t, ht, rfl⟩ := List.mem_map.mp hx
+        exact ⟨by simpa using he, t, ht, shift_shift t _ _⟩
+    · left
+      unfold lineBreakTok at hx
+      split at hx
+      · next hlt =>
+        simp at hx; subst hx
+        refine ⟨hlt, ?_⟩
+        simp [Tok.shift, Span.pushBy]; omega
+      · cases hx
+  · rintro (⟨hlt, rfl⟩ | ⟨he, t, ht, rfl⟩)
+    · refine ⟨⟨⟨line.length, line.length + 1⟩, .newline 1⟩, Or.inr ?_, ?_⟩
+      · simp [lineBreakTok, hlt]
+      · simp [Tok.shift, Span.pushBy]; omega
+    · refine ⟨t.shift (leaderSpan isWs line).start, Or.inl ?_, shift_shift t _ _⟩
+      unfold parsedLine
+      rw [if_neg (by simp [he])]
+      exact List.mem_map.mpr ⟨t, ht, rfl⟩
+
+/-- with a well-behaved inner parser, a line's tokens stay inside the line and its line break -/
+theorem unitLineToks_bounds {inner : List Char → List Tok} (hin : InnerOK inner) (isWs : Char → Bool)
+    (total off : Nat) (line : List Char) (tok : Tok) (h : tok ∈ unitLineToks isWs total inner off line) :
+    off ≤ tok.span.start ∧ tok.span.start ≤ tok.span.stop ∧ tok.span.stop ≤ off + line.length + 1 := by
+  obtain ⟨_, h1, h2⟩ := withoutInitiators_eq isWs line
+  rcases (mem_unitLineToks isWs total inner off line tok).mp h with ⟨_, rfl⟩ | ⟨_, t, ht, rfl⟩
+  · simp
+  · have := (hin _).1 t ht
+    rw [slice_length _ line h2] at this
+    simp only [Tok.shift, Span.pushBy]
+    omega
+
+/-- the lines (with their line breaks) occupy disjoint, increasing stretches of the text -/
+theorem lineStart_lt : ∀ (lines : List (List Char)) (j k : Nat) (l : List Char),
+    lines[j]? = some l → j < k → lineStart lines j + l.length + 1 ≤ lineStart lines k
+  | [], _, _, _, h, _ => by simp at h
+  | x :: xs, 0, k + 1, l, h, _ => by
+    simp at h; subst h
+    rw [lineStart_zero, lineStart_succ]; omega
+  | x :: xs, j + 1, k + 1, l, h, hjk => by
+    have := lineStart_lt xs j k l (by simpa using h) (by omega)
+    rw [lineStart_succ, lineStart_succ]; omega
+
+/-- no fence line anywhere: the flag never changes -/
+theorem fenceStates_no_fence (isWs : Char → Bool) : ∀ (lines : List (List Char)) (fence : Bool),
+    (∀ l ∈ lines, isFenceLine isWs l = false) →
+    fenceStates isWs fence lines = List.replicate lines.length fence
+  | [], _, _ => rfl
+  | l :: ls, fence, h => by
+    have hl : isFenceLine isWs l = false := h l (by simp)
+    simp [fenceStates, hl, List.replicate_succ,
+      fenceStates_no_fence isWs ls fence (fun x hx => h x (List.mem_cons_of_mem _ hx))]
+
+/-- a fence line is never blank after stripping: the inner parser is really called on it, on a
+chunk that begins with the three backticks -/
+theorem parsedLine_fence (isWs : Char → Bool) (inner : List Char → List Tok) (line : List Char)
+    (hf : isFenceLine isWs line = true) :
+    (slice line (leaderSpan isWs line)).take 3 = ['`', '`', '`'] ∧
+    parsedLine isWs inner line =
+      (inner (slice line (leaderSpan isWs line))).map (·.shift (leaderSpan isWs line).start) := by
+  obtain ⟨_, h1, h2⟩ := withoutInitiators_eq isWs line
+  rw [isFenceLine_eq] at hf
+  have ht : (slice line (leaderSpan isWs line)).take 3 = ['`', '`', '`'] := by simpa using hf
+  refine ⟨ht, ?_⟩
+  unfold parsedLine
+  rw [if_neg]
+  intro he
+  have hl := slice_length _ line h2
+  have : (slice line (leaderSpan isWs line)).length = 0 := by
+    simp [Span.isEmpty, Span.len] at he; omega
+  have : slice line (leaderSpan isWs line) = [] := List.eq_nil_of_length_eq_zero this
+  rw [this] at ht; cases ht
+
+/-- **the closing fence line**: inside a fence (`fence = true`), a fence line flips the flag to
+`false` BEFORE it is tested, so that very line is parsed like a prose line -/
+theorem unitLoop_closing_fence (isWs : Char → Bool) (total : Nat) (inner : List Char → List Tok)
+    (trav : Nat) (line : List Char) (rest : List (List Char)) (hf : isFenceLine isWs line = true) :
+    unitLoop isWs total inner trav true (line :: rest) =
+      .ok (unitLineToks isWs total inner trav line ++
+        unitOut isWs total inner (trav + line.length + 1) rest (fenceStates isWs false rest)) := by
+  rw [unitLoop_eq]; simp [fenceStates, unitOut, hf]
+
+/-- the opening fence line (flag `false` before it) and every non-fence line while the flag is
+`true` are skipped: nothing is emitted for them, not even the line-break token -/
+theorem unitLoop_opening_fence (isWs : Char → Bool) (total : Nat) (inner : List Char → List Tok)
+    (trav : Nat) (line : List Char) (rest : List (List Char)) (hf : isFenceLine isWs line = true) :
+    unitLoop isWs total inner trav false (line :: rest) =
+      unitLoop isWs total inner (trav + line.length + 1) true rest := by
+  rw [unitLoop_eq, unitLoop_eq]; simp [fenceStates, unitOut, hf]
+
+theorem unitLoop_inside_fence (isWs : Char → Bool) (total : Nat) (inner : List Char → List Tok)
+    (trav : Nat) (line : List Char) (rest : List (List Char)) (hf : isFenceLine isWs line = false) :
+    unitLoop isWs total inner trav true (line :: rest) =
+      unitLoop isWs total inner (trav + line.length + 1) true rest := by
+  rw [unitLoop_eq, unitLoop_eq]; simp [fenceStates, unitOut, hf]
+
+theorem leaderSpan_fence_nonempty (isWs : Char → Bool) (line : List Char)
+    (hf : isFenceLine isWs line = true) : (leaderSpan isWs line).isEmpty = false := by
+  have h := (parsedLine_fence isWs (fun _ => [⟨⟨0, 0⟩, .word⟩]) line hf).2
+  unfold parsedLine at h
+  cases he : (leaderSpan isWs line).isEmpty
+  · rfl
+  · rw [he] at h; simp at h
+
 end Harper
